@@ -509,7 +509,9 @@ def gen_edits(rng, root, big):
                 child = G.gen_unknown(rng)
             else:
                 child = G.leaf(kind, kind, G.gen_fields(kind, rng), False if scratch else G.maybe_large(rng))
-            spec = ("scratch", (child[3], child[1], child[4])) if scratch else ("tree", child)
+            # snapshot: later edits change the shadow tree this child becomes part of
+            spec = ("scratch", (child[3], child[1], copy.deepcopy(child[4]))) if scratch \
+                else ("tree", copy.deepcopy(child))
             mark = "z" if scratch else "s"
             ps = ".".join(map(str, p)) or "-"
             if rng.random() < .5:
